@@ -199,6 +199,8 @@ Definition BCodec_lenient_colon : bool := false.
 (* Repair flags of src/metainfo.rs, pinned by the correspondence in the same way. *)
 Definition Metainfo_reject_zero_piece_length : bool := true.
 Definition Metainfo_reject_total_overflow : bool := true.
+(* name / file paths that are absolute or contain '..' are refused (after the repair for C04) *)
+Definition Metainfo_reject_unsafe_paths : bool := true.
 (* src/tracker_resp.rs: a failure reason that is not valid UTF-8 still is a failure (after the repair) *)
 Definition TrackerResp_lossy_reason : bool := true.
 Definition decode (s : bytes) : result (list bvalue) := decode_with true BCodec_lenient_colon s.
